@@ -646,21 +646,90 @@ Proof.
   destruct H as [H|H]; [inversion H; subst; contradiction | apply IH; exact H].
 Qed.
 
+(* the npm stage at the end of a build adds finished entries for specifiers that were requested *)
+Lemma set_assoc_keys : forall {V} k (v : V) l x, In x (map fst (set_assoc k v l)) -> x = k \/ In x (map fst l).
+Proof.
+  intros V k v l. induction l as [|[k' v'] l IH]; intros x H; cbn [set_assoc] in H.
+  - destruct H as [H|[]]. left. symmetry. exact H.
+  - destruct (N.eqb_spec k k') as [->|Hne]; cbn [map fst In] in *.
+    + destruct H as [H|H]; [left; symmetry; exact H | right; right; exact H].
+    + destruct H as [H|H]; [right; left; exact H|]. destruct (IH x H) as [H'|H']; [left; exact H' | right; right; exact H'].
+Qed.
+
+Lemma npm_main_keys : forall ans items x, In x (map fst (npm_main ans items)) -> In x (map ni_spec items).
+Proof.
+  intros ans items x. unfold npm_main.
+  assert (G : forall reqs acc, (forall y, In y (map fst acc) -> In y (map ni_spec items)) ->
+              In x (map fst (fold_left (fun acc r => fold_left (fun acc it =>
+                if N.eqb (ni_req it) r
+                then set_assoc (ni_spec it) (if N.eqb (npm_code ans r) 1 then BErr (BNpm (ni_spec it) (ni_range it) 0) else BMod (npm_module (ni_spec it))) acc
+                else acc) items acc) reqs acc)) -> In x (map ni_spec items)).
+  { induction reqs as [|r reqs IH]; intros acc Hacc H; cbn [fold_left] in H; [apply Hacc; exact H|].
+    eapply IH; [|exact H]. clear H IH.
+    assert (G2 : forall its acc0, (forall it, In it its -> In it items) -> (forall y, In y (map fst acc0) -> In y (map ni_spec items)) ->
+                 forall y, In y (map fst (fold_left (fun acc it =>
+                   if N.eqb (ni_req it) r
+                   then set_assoc (ni_spec it) (if N.eqb (npm_code ans r) 1 then BErr (BNpm (ni_spec it) (ni_range it) 0) else BMod (npm_module (ni_spec it))) acc
+                   else acc) its acc0)) -> In y (map ni_spec items)).
+    { induction its as [|it its IH2]; intros acc0 Hsub Ha y Hy; cbn [fold_left] in Hy; [apply Ha; exact Hy|].
+      eapply IH2; [intros i Hi; apply Hsub; right; exact Hi| |exact Hy].
+      intros z Hz. destruct (N.eqb (ni_req it) r); [|apply Ha; exact Hz].
+      apply set_assoc_keys in Hz. destruct Hz as [->|Hz]; [apply in_map; apply Hsub; left; reflexivity | apply Ha; exact Hz]. }
+    apply G2; [auto | exact Hacc]. }
+  apply G. intros y [].
+Qed.
+
+Lemma npm_dynamic_keys : forall ans items its acc x,
+  (forall it, In it its -> In it items) -> (forall y, In y (map fst acc) -> In y (map ni_spec items)) ->
+  In x (map fst (npm_dynamic ans its acc)) -> In x (map ni_spec items).
+Proof.
+  intros ans items. unfold npm_dynamic. induction its as [|it its IH]; intros acc x Hsub Ha H; cbn [fold_left] in H; [apply Ha; exact H|].
+  eapply IH; [intros i Hi; apply Hsub; right; exact Hi| |exact H].
+  intros y Hy. apply set_assoc_keys in Hy. destruct Hy as [->|Hy]; [apply in_map; apply Hsub; left; reflexivity | apply Ha; exact Hy].
+Qed.
+
+Lemma npm_resolve_keys : forall W items x,
+  In x (map fst (no_slots (npm_resolve W items))) -> In x (map ni_spec items).
+Proof.
+  intros W items x H. unfold npm_resolve in H. destruct (w_npm W) as [ans|]; [|destruct H]. cbn [no_slots] in H.
+  eapply npm_dynamic_keys; [| |exact H].
+  - intros it Hit. apply filter_In in Hit. exact (proj1 Hit).
+  - intros y Hy. match type of Hy with context [if ?c then _ else _] => destruct c end; [|destruct Hy].
+    apply npm_main_keys in Hy. apply in_map_iff in Hy. destruct Hy as [it [E Hit]]. apply filter_In in Hit.
+    rewrite <- E. apply in_map. exact (proj1 Hit).
+Qed.
+
+Lemma npm_fill_lookup_keep : forall new slots s v, lookup s slots = Some v -> lookup s (npm_fill slots new) = Some v.
+Proof.
+  unfold npm_fill. induction new as [|[k x] new IH]; intros slots s v H; cbn [fold_left]; [exact H|].
+  apply IH. cbn [fst snd]. apply lookup_or_insert_keep. exact H.
+Qed.
+
+Lemma npm_fill_keys : forall new slots x, In x (map fst (npm_fill slots new)) -> In x (map fst slots) \/ In x (map fst new).
+Proof.
+  unfold npm_fill. induction new as [|[k v] new IH]; intros slots x H; cbn [fold_left] in H; [left; exact H|].
+  destruct (IH _ _ H) as [H'|H']; [|right; right; exact H'].
+  cbn [fst snd] in H'. unfold or_insert in H'. destruct (lookup k slots); [left; exact H'|].
+  rewrite map_app in H'. apply in_app_or in H'. destruct H' as [H'|[H'|[]]]; [left; exact H' | right; left; exact H'].
+Qed.
+
+Lemma has_key_in_keys : forall {V} (l : list (N * V)) s, In s (map fst l) -> has_key s l = true.
+Proof.
+  intros V l s H. apply in_map_iff in H. destruct H as [[k v] [E Hin]]. cbn in E. subst k. eapply in_has_key. exact Hin.
+Qed.
+
 Theorem build_sound : forall W o k roots imports g,
   (forall s f wm, resp_of W s = WModule f wm \/ resp_reload_of W s = WModule f wm -> f = s) ->
   (forall s f, resp_of W s = WExternal f \/ resp_reload_of W s = WExternal f -> f = s) ->
   (forall s f wm da, resp_of W s = WModule f wm \/ resp_reload_of W s = WModule f wm ->
      In da (wm_deps wm) -> dfl_asset (snd da) = false) ->
-  w_npm W = None ->
   build W o (empty_bgraph k) roots imports = Some g ->
   forall s sl, In (s, sl) (bg_slots g) -> Reaches (b1_edges W g false) (b1_starts roots imports) s.
 Proof.
-  intros W o k roots imports g Ha Hx Hn Hnpm Hb s sl Hin. unfold build in Hb.
+  intros W o k roots imports g Ha Hx Hn Hb s sl Hin. unfold build in Hb.
   match type of Hb with context [resolve_pending ?f W o ?st0] => set (fuel := f) in *; set (st2 := st0) in * end.
   destruct (resolve_pending fuel W o st2) as [st|] eqn:HR; [|discriminate].
   inversion Hb; subst g; clear Hb. cbn [bg_slots finish] in Hin.
-  assert (Enpm : no_slots (npm_resolve W (st_npm st)) = []) by (unfold npm_resolve; rewrite Hnpm; reflexivity).
-  rewrite Enpm in Hin. cbn [npm_fill fold_left] in Hin.
   set (starts := b1_starts roots imports).
   assert (H2 : SInv starts None [] st2).
   { unfold st2. apply (sinv_load_imports W o starts).
@@ -672,10 +741,17 @@ Proof.
       unfold starts, b1_starts. apply in_or_app. right. apply in_flat_map. exists (k0, ds). split; [exact Hk|].
       cbn [snd]. apply in_flat_map. exists d. split; [exact Hd|]. rewrite Ht. left. reflexivity. }
   pose proof (sinv_resolve_pending W o starts Ha Hx Hn fuel st2 st H2 HR) as H3.
-  assert (Hk : has_key s (st_slots st) = true) by (eapply in_has_key; exact Hin).
-  pose proof (si_slots starts None [] st H3 s Hk) as Hj. unfold J in Hj. rewrite app_nil_r in Hj.
+  assert (Hj : J starts [] st s).
+  { apply (in_map fst) in Hin. cbn [fst] in Hin. apply npm_fill_keys in Hin. destruct Hin as [Hin|Hin].
+    - apply (si_slots starts None [] st H3). apply has_key_in_keys. exact Hin.
+    - apply npm_resolve_keys in Hin. apply in_map_iff in Hin. destruct Hin as [it [E Hit]]. rewrite <- E.
+      apply (si_npm starts None [] st H3 it Hit). }
+  unfold J in Hj. rewrite app_nil_r in Hj.
   eapply reaches_mono; [| |exact Hj]; [|auto].
-  intros a b Hab. rewrite b1_edges_sedges. cbn [bg_slots bg_redirects finish]. rewrite Enpm. cbn [npm_fill fold_left]. exact Hab.
+  intros a b Hab. rewrite b1_edges_sedges. cbn [bg_slots bg_redirects finish]. unfold sedges in *.
+  apply in_app_or in Hab. apply in_or_app. destruct Hab as [Hab|Hab]; [left; exact Hab|]. right.
+  destruct (lookup a (st_slots st)) as [v|] eqn:El; [|destruct Hab].
+  rewrite (npm_fill_lookup_keep _ _ _ _ El). exact Hab.
 Qed.
 
 (* the hypotheses as computable predicates on the world *)
@@ -707,16 +783,16 @@ Proof.
 Qed.
 
 Theorem build_sound_b : forall W o k roots imports g,
-  noalias_world W = true -> noasset_world W = true -> w_npm W = None ->
+  noalias_world W = true -> noasset_world W = true ->
   build W o (empty_bgraph k) roots imports = Some g ->
   forall s sl, In (s, sl) (bg_slots g) -> Reaches (b1_edges W g false) (b1_starts roots imports) s.
 Proof.
-  intros W o k roots imports g Hal Has Hnpm. 
+  intros W o k roots imports g Hal Has. 
   assert (Hall : forall p, In p (w_resp W ++ w_resp_reload W) -> noalias_wresp p = true).
   { unfold noalias_world in Hal. apply andb_true_iff in Hal. destruct Hal as [A B]. rewrite forallb_forall in A, B.
     intros p Hp. apply in_app_or in Hp. destruct Hp as [Hp|Hp]; [apply A | apply B]; exact Hp. }
   unfold noasset_world in Has. rewrite forallb_forall in Has.
-  apply build_sound; [| | |exact Hnpm].
+  apply build_sound.
   - intros s f wm H. destruct (resp_any_in W s (WModule f wm) H) as [H'|H']; [discriminate|].
     specialize (Hall _ H'). unfold noalias_wresp in Hall. cbn [snd fst] in Hall. apply N.eqb_eq in Hall. exact Hall.
   - intros s f H. destruct (resp_any_in W s (WExternal f) H) as [H'|H']; [discriminate|].
